@@ -264,13 +264,25 @@ def _sub_semantics(ctx, F, pf):
     if len(subs) != 1:
         return False
     c = subs[0].call
-    if len(c.args) < 3:
+
+    def const_of(x):
+        v = const_eval(ctx.repo, pf.module, x)
+        if (v is None or not (isinstance(v, str) or hasattr(
+                v, 'pattern'))) and isinstance(x, ast.Name):
+            v = const_eval(ctx.repo, pf.module, Q.inline(pf.node, x))
+        return v
+    # re.sub(pattern, repl, s)  or  <compiled constant>.sub(repl, s)
+    recv = c.func.value if isinstance(c.func, ast.Attribute) else None
+    rc = const_of(recv) if recv is not None else None
+    if hasattr(rc, 'pattern') and len(c.args) >= 2:
+        pat, repl_e = rc, c.args[0]
+    elif len(c.args) >= 3:
+        pat, repl_e = const_of(c.args[0]), c.args[1]
+    else:
         return False
-    pat = const_eval(ctx.repo, pf.module, Q.inline(pf.node, c.args[0])
-                     if isinstance(c.args[0], ast.Name) else c.args[0])
     pname = Q.params(pf.node)[-1]
-    repl = subst_eval(ctx.repo, pf.module, Q.inline(pf.node, c.args[1])
-                      if isinstance(c.args[1], ast.Name) else c.args[1],
+    repl = subst_eval(ctx.repo, pf.module, Q.inline(pf.node, repl_e)
+                      if isinstance(repl_e, ast.Name) else repl_e,
                       {pname: 'P-'})
     if hasattr(pat, 'pattern'):
         pat = pat.pattern
@@ -341,8 +353,10 @@ def x_alias(ctx):
             f, 'option_strings') and not has(f, '_true_prefix')
     sup = [e for e in F.effects(ti, lambda e: e.name == '__init__', depth=0)]
     ok = ok and bool(sup) and all(
-        has(e.arg(0), 'true_strings') and has(e.arg(0), 'false_strings')
-        for e in sup)
+        # the stored attributes (checked above) or the lists themselves
+        has(e.arg(0), 'true_strings') and has(e.arg(0), 'false_strings') or
+        has(e.arg(0), '_true_prefix') and has(e.arg(0), '_false_prefix')
+        and has_call(e.arg(0), '_prefix') for e in sup)
     ctx.ob(R, 'ToggleAction.__init__|both-spellings-both-polarities', ok,
            ti.node, 'the action does not register the positive and the '
            'negative spelling of every option string')
